@@ -19,6 +19,19 @@ fn checked_u64(res: Option<u64>, op: BinOp) -> Result<Primitive, OperatorError> 
         .ok_or_else(|| OperatorError::overflow(op, PrimitiveKind::PositiveInteger))
 }
 
+/// Integer arithmetic on mixed signed/unsigned operands. The result is computed in i128,
+/// which holds every sum, difference and product of two 64-bit values, and narrowed to
+/// i64: a value outside i64 is an `Overflow` error, never a wrapped one (casting a u64
+/// above i64::MAX with `as i64` silently turns it negative).
+fn exact_i64(lhs: i128, rhs: i128, op: BinOp) -> Result<Primitive, OperatorError> {
+    let wide = match op {
+        BinOp::Add => lhs + rhs,
+        BinOp::Sub => lhs - rhs,
+        _ => lhs * rhs,
+    };
+    checked_i64(i64::try_from(wide).ok(), op)
+}
+
 /// Performs a floating-point division, returning a `DivisionByZero` error instead of
 /// silently producing `inf`/`NaN` (which would poison the compiled model).
 fn checked_div(a: f64, b: f64) -> Result<Primitive, OperatorError> {
@@ -236,9 +249,7 @@ impl ApplyOp for i64 {
                 ),
             },
             Primitive::PositiveInteger(n) => match op {
-                BinOp::Add => checked_i64(self.checked_add(*n as i64), BinOp::Add),
-                BinOp::Sub => checked_i64(self.checked_sub(*n as i64), BinOp::Sub),
-                BinOp::Mul => checked_i64(self.checked_mul(*n as i64), BinOp::Mul),
+                BinOp::Add | BinOp::Sub | BinOp::Mul => exact_i64(*self as i128, *n as i128, op),
                 BinOp::Div => checked_div(*self as f64, *n as f64),
                 op @ (BinOp::And | BinOp::Or | BinOp::Xor | BinOp::Implies | BinOp::Iff) => Err(
                     OperatorError::unsupported_bin_operation(op, PrimitiveKind::Integer),
@@ -262,7 +273,8 @@ impl ApplyOp for i64 {
     }
     fn apply_unary_op(&self, op: UnOp) -> Result<Self::Target, Self::Error> {
         match op {
-            UnOp::Neg => Ok(Primitive::Integer(-self)),
+            // -i64::MIN does not fit: an overflow error (of 0 - x), not a panic
+            UnOp::Neg => exact_i64(0, *self as i128, BinOp::Sub),
             UnOp::Not => Err(OperatorError::unsupported_un_operation(
                 op,
                 PrimitiveKind::Integer,
@@ -297,7 +309,7 @@ impl ApplyOp for u64 {
         match to {
             Primitive::PositiveInteger(n) => match op {
                 BinOp::Add => checked_u64(self.checked_add(*n), BinOp::Add),
-                BinOp::Sub => checked_i64((*self as i64).checked_sub(*n as i64), BinOp::Sub),
+                BinOp::Sub => exact_i64(*self as i128, *n as i128, BinOp::Sub),
                 BinOp::Mul => checked_u64(self.checked_mul(*n), BinOp::Mul),
                 BinOp::Div => checked_div(*self as f64, *n as f64),
                 op @ (BinOp::And | BinOp::Or | BinOp::Xor | BinOp::Implies | BinOp::Iff) => Err(
@@ -305,9 +317,7 @@ impl ApplyOp for u64 {
                 ),
             },
             Primitive::Integer(n) => match op {
-                BinOp::Add => checked_i64((*self as i64).checked_add(*n), BinOp::Add),
-                BinOp::Sub => checked_i64((*self as i64).checked_sub(*n), BinOp::Sub),
-                BinOp::Mul => checked_i64((*self as i64).checked_mul(*n), BinOp::Mul),
+                BinOp::Add | BinOp::Sub | BinOp::Mul => exact_i64(*self as i128, *n as i128, op),
                 BinOp::Div => checked_div(*self as f64, *n as f64),
                 op @ (BinOp::And | BinOp::Or | BinOp::Xor | BinOp::Implies | BinOp::Iff) => Err(
                     OperatorError::unsupported_bin_operation(op, PrimitiveKind::PositiveInteger),
@@ -324,7 +334,7 @@ impl ApplyOp for u64 {
             },
             Primitive::Boolean(n) => match op {
                 BinOp::Add => checked_u64(self.checked_add(*n as u64), BinOp::Add),
-                BinOp::Sub => checked_i64((*self as i64).checked_sub(*n as i64), BinOp::Sub),
+                BinOp::Sub => exact_i64(*self as i128, *n as i128, BinOp::Sub),
                 BinOp::Mul => checked_u64(self.checked_mul(*n as u64), BinOp::Mul),
                 BinOp::Div => checked_div(*self as f64, *n as u8 as f64),
                 op @ (BinOp::And | BinOp::Or | BinOp::Xor | BinOp::Implies | BinOp::Iff) => Err(
@@ -340,7 +350,8 @@ impl ApplyOp for u64 {
     }
     fn apply_unary_op(&self, op: UnOp) -> Result<Self::Target, Self::Error> {
         match op {
-            UnOp::Neg => Ok(Primitive::Integer(-(*self as i64))),
+            // values above i64::MAX have no negation in i64
+            UnOp::Neg => exact_i64(0, *self as i128, BinOp::Sub),
             UnOp::Not => Err(OperatorError::unsupported_un_operation(
                 op,
                 PrimitiveKind::PositiveInteger,
